@@ -34,6 +34,14 @@ Theorem C19_var_header_outcome : forall chain value,
 Proof. exact var_header_one_spec. Qed.
 Print Assumptions C19_var_header_outcome.
 
+(* variables a step takes from an earlier RESPONSE and indexes (lib/mp calcIndex + the slice access): for every
+   index form (number, next, rand, last, malformed), every list length incl. 0, every [next] counter and random
+   draw: an error or an element, never a divide-by-zero / Intn(0) / index-out-of-range panic *)
+Theorem C19_response_list_index_safe : forall ix len counter rnd, 0 <= len -> 0 <= counter ->
+  extract_elem ix len counter rnd <> Panicked.
+Proof. exact extract_elem_not_panic. Qed.
+Print Assumptions C19_response_list_index_safe.
+
 Theorem C19_grpc_assert_never_panics : forall st p code out, grpc_assert st p code out <> Panicked.
 Proof. exact grpc_assert_not_panic. Qed.
 Print Assumptions C19_grpc_assert_never_panics.
@@ -74,7 +82,8 @@ Proof. exact scenario_shoot_total. Qed.
 Print Assumptions C19_scenario_total.
 
 (* ... in particular with the modelled postprocessors in any configuration *)
-Theorem C19_scenario_total_modelled : forall o (specs : list (bool * bool * bool * response * list pp_cfg)),
+Theorem C19_scenario_total_modelled : forall o (specs : list (pre_cfg * bool * bool * response * list pp_cfg)),
+  Forall (fun '(pre, _, _, _, _) => pre_wf pre) specs ->
   let steps := map (fun '(pre, tmpl, prep, r, pps) => mk_step o pre tmpl prep r pps) specs in
   exists l, scenario_shoot true steps = Returned l /\ length l = executed steps /\ Forall sample_ok_or_failure l.
 Proof. exact scenario_total_modelled. Qed.
@@ -108,9 +117,12 @@ Example C19_example_scenario :
   let ok := {| rs_conn := ConnOk; rs_status := 200; rs_body_ok := true; rs_h2 := false |} in
   let cut := {| rs_conn := ConnOk; rs_status := 200; rs_body_ok := false; rs_h2 := false |} in
   let mk_step := mk_step {| go_dump := true; go_trace := true; go_answlog := Some AnswAll; go_debug := true |} in
-  scenario_shoot true [mk_step true true true ok [PPHeader [([SSubstr [[53%N]; [56%N]]], [97%N; 98%N; 99%N])]; PPXpath [(true, XNumber)]];
-                       mk_step true true true ok []]
+  scenario_shoot true [mk_step PreNone true true ok [PPHeader [([SSubstr [[53%N]; [56%N]]], [97%N; 98%N; 99%N])]; PPXpath [(true, XNumber)]];
+                       mk_step PreNone true true ok []]
   = Returned [{| sm_code := 0; sm_err := true |}] /\
-  scenario_shoot true [mk_step true true true ok []; mk_step true true true cut []; mk_step true true true ok []]
+  scenario_shoot true [mk_step PreNone true true ok []; mk_step PreNone true true cut []; mk_step PreNone true true ok []]
+  = Returned [{| sm_code := 200; sm_err := false |}; {| sm_code := 0; sm_err := true |}] /\
+  (* a later step indexing an EMPTY list the first response delivered: one failed sample, the third step is skipped *)
+  scenario_shoot true [mk_step PreNone true true ok []; mk_step (PreIndex INext 0 0 0) true true ok []; mk_step PreNone true true ok []]
   = Returned [{| sm_code := 200; sm_err := false |}; {| sm_code := 0; sm_err := true |}].
-Proof. vm_compute. split; reflexivity. Qed.
+Proof. vm_compute. repeat split; reflexivity. Qed.
